@@ -65,7 +65,7 @@ Load(n, tree) ==
     /\ LET r == LoadTree(S, cfgs[n], tree, <<>>, TRUE) IN
        /\ cfgs' = [cfgs EXCEPT ![n] = r.cfg]
        /\ ev' = [op |-> "Load", n |-> n, tree |-> tree, out |-> Outcome(r), errpath |-> r.err.path,
-                 repl |-> r.repl]
+                 repl |-> r.repl, vlog |-> r.log]
 
 Reset(n, pk) ==
     /\ Built(n)
@@ -86,7 +86,14 @@ Check(n) ==
     /\ LET r == ValidateCfg(S, cfgs[n], <<>>) IN
        /\ UNCHANGED cfgs
        /\ ev' = [op |-> "Validate", n |-> n, out |-> IF r.ok THEN "ok" ELSE r.err.cls,
-                 errpath |-> r.err.path, repl |-> {}]
+                 errpath |-> r.err.path, repl |-> {}, vlog |-> r.log]
+
+\* cfg.validate(collect_errors=True): returns a list instead of raising
+CheckCollect(n) ==
+    /\ Built(n)
+    /\ LET r == ValidateCfg(S, cfgs[n], <<>>) IN
+       /\ UNCHANGED cfgs
+       /\ ev' = [op |-> "ValidateCollect", n |-> n, out |-> IF r.ok THEN "ok" ELSE "errors", errpath |-> <<>>, repl |-> {}]
 
 Tick == steps < MaxDepth /\ steps' = steps + 1
 
@@ -100,6 +107,7 @@ Next ==
     \/ \E n \in Names, pk \in DOMAIN ListOps : \E o \in ListOps[pk] : Tick /\ COp(n, pk, o)
     \/ \E n \in Names, pk \in DOMAIN DictOps : \E o \in DictOps[pk] : Tick /\ COp(n, pk, o)
     \/ \E n \in Names : Tick /\ Check(n)
+    \/ \E n \in Names : Tick /\ CheckCollect(n)
 
 Bound == TRUE
 
@@ -160,6 +168,46 @@ A_Reset ==
                   k2 # ev'.k => after.vals[k2] = before.vals[k2] /\ (k2 \in after.dflt <=> k2 \in before.dflt)
             /\ cfgs'[n] = PutAt(cfgs[n], ev'.p, after)
 C12_Reset == [][A_Reset]_vars
+
+(* C11: a load or validation that returns means required fields are set and every validator
+   of every enabled (sub)configuration ran and passed *)
+NonEmpty(v) == ~IsNone(v) /\ (v.t = "str" => v.s # <<>>) /\ (v.t \in {"list", "tuple"} => v.l # <<>>) /\ (v.t = "dict" => v.kv # <<>>)
+RECURSIVE RequiredSet(_, _)
+RequiredSet(Sx, c) ==
+    FeatureOn(Sx, c) =>
+        \A i \in DOMAIN Sx.fields :
+            LET k == Sx.fields[i][1]  f == Sx.fields[i][2] IN
+            IF f.kind = "virtual" THEN TRUE
+            ELSE IF IsSchema(f) THEN IsCfg(c.vals[k]) => RequiredSet(f, c.vals[k])
+            ELSE f.required => NonEmpty(c.vals[k])
+RECURSIVE EnabledValidators(_, _, _)
+EnabledValidators(Sx, c, path) ==
+    IF ~FeatureOn(Sx, c) THEN {}
+    ELSE {<<path, Sx.validators[j]>> : j \in DOMAIN Sx.validators}
+         \cup UNION {LET k == Sx.fields[i][1]  f == Sx.fields[i][2] IN
+                     IF IsSchema(f) /\ IsCfg(c.vals[k]) THEN EnabledValidators(f, c.vals[k], Append(path, k)) ELSE {}
+                     : i \in DOMAIN Sx.fields}
+C11_ReturnImplies ==
+    \A n \in Names :
+        (ev.op \in {"Load", "Validate"} /\ ev.n = n /\ ev.out = "ok") =>
+            /\ RequiredSet(S, cfgs[n])
+            /\ EnabledValidators(S, cfgs[n], <<>>) \subseteq ev.vlog
+            /\ \A pv \in EnabledValidators(S, cfgs[n], <<>>) : ValidatorOk(pv[2], CfgAt(cfgs[n], pv[1]))
+C11_CollectIffRaise ==
+    \A n \in Names :
+        (ev.op = "ValidateCollect" /\ ev.n = n) => (ev.out = "errors" <=> ~ValidateCfg(S, cfgs[n], <<>>).ok)
+\* items of configuration lists are held to the rule when they are loaded or inserted:
+\* every item satisfies its schema's required fields at all times
+RECURSIVE ItemsHeld(_, _)
+ItemsHeld(Sx, c) ==
+    \A i \in DOMAIN Sx.fields :
+        LET k == Sx.fields[i][1]  f == Sx.fields[i][2] IN
+        IF f.kind = "virtual" THEN TRUE
+        ELSE IF IsSchema(f) THEN IsCfg(c.vals[k]) => ItemsHeld(f, c.vals[k])
+        ELSE IF f.kind = "list" /\ IsSchema(f.item) /\ c.vals[k].t = "list"
+             THEN \A j \in DOMAIN c.vals[k].l : RequiredSet(f.item, c.vals[k].l[j])
+        ELSE TRUE
+C11_ItemsHeld == \A n \in Names : Built(n) => ItemsHeld(S, cfgs[n])
 
 (* C15: every rejection of a value for a declared field is the library's validation error
    and names a declared path below the assignment's target *)
